@@ -125,3 +125,25 @@ def derive_seed(*parts):
     """Stable 63-bit integer from arbitrary parts (independent of PYTHONHASHSEED)."""
     h = hashlib.sha256(("|".join(str(p) for p in parts)).encode()).digest()
     return int.from_bytes(h[:8], "big") >> 1
+
+
+def interleave(sched, ops, key="client", mode="scheduler"):
+    """Yield (original_index, op) in an order that preserves every client's own order.
+    mode 'as-listed' keeps the generated order; mode 'scheduler' lets the scheduler pick which
+    client moves next (one tape entry per step; all-zero tape => clients run one after the other)."""
+    if mode != "scheduler":
+        for i, op in enumerate(ops):
+            yield i, op
+        return
+    queues, order = {}, []
+    for i, op in enumerate(ops):
+        k = op.get(key, 0)
+        if k not in queues:
+            queues[k] = []
+            order.append(k)
+        queues[k].append((i, op))
+    while order:
+        k = order[sched.choose(len(order), "interleave")]
+        yield queues[k].pop(0)
+        if not queues[k]:
+            order.remove(k)
